@@ -1,3 +1,3 @@
-import Holpy.C13.Wire
-/- Driver of the C13 model: see Holpy/C13/Wire.lean for the line protocol. -/
-def main : IO Unit := Holpy.lineLoop Holpy.C13.Wire.handle
+import Holpy.C14.Wire
+/- Driver of the C13 model: see Holpy/C13/Wire.lean and Holpy/C14/Wire.lean for the line protocol. -/
+def main : IO Unit := Holpy.lineLoop Holpy.C14.Wire.handle
